@@ -20,6 +20,8 @@ type (
 		Security []Requirement `json:"security,omitempty"`
 		Errors   []ErrorDecl   `json:"errors,omitempty"`
 		Servers  int           `json:"servers,omitempty"`
+		// HTTPErrors are the Response(name, status) mappings of the API-level HTTP expression (added for C05).
+		HTTPErrors []HTTPError `json:"httpErrors,omitempty"`
 	}
 	Scheme struct {
 		Name   string   `json:"name"`
@@ -138,6 +140,12 @@ type (
 		Multipart bool              `json:"multipart,omitempty"`
 		SkipReq   bool              `json:"skipRequestBody,omitempty"`
 		SkipResp  bool              `json:"skipResponseBody,omitempty"`
+		// attributes made Required only inside the HTTP mapping: Params(func(){ Required(..) }) / Headers(func(){ Required(..) })
+		// (optional, added for C01/C02/C04: "required in the transport only")
+		ParamsRequired  []string `json:"paramsRequired,omitempty"`
+		HeadersRequired []string `json:"headersRequired,omitempty"`
+		// MapParams: nil = not used; "" = MapParams() (the whole payload is the query string); "a1" = MapParams("a1")
+		MapParams *string `json:"mapParams,omitempty"`
 	}
 	Route struct {
 		Verb string `json:"verb"`
@@ -151,6 +159,8 @@ type (
 		Cookies     map[string]string `json:"cookies,omitempty"`
 		Body        string            `json:"body,omitempty"`
 		ContentType string            `json:"contentType,omitempty"`
+		// result attributes made Required only inside the response mapping: Headers(func(){ Required(..) }) (optional)
+		HeadersRequired []string `json:"headersRequired,omitempty"`
 	}
 	HTTPError struct {
 		Name    string            `json:"name"`
